@@ -50,34 +50,31 @@ fn matches(pat: &Key, key: &Key) -> bool {
     }
 }
 
-fn feat(bit: u32) -> bool {
-    // experiment switch: C09_FEATURES bitmask (default all on): 1 var keys in clauses, 2 asserta,
-    // 4 retract cursors, 8 clause cursors, 16 var patterns
-    let m: u32 = std::env::var("C09_FEATURES").ok().and_then(|s| s.parse().ok()).unwrap_or(u32::MAX);
-    m & bit != 0
+/// Which features a history may use: bit 0 unbound clause keys, 1 asserta, 2 retract/1 cursors,
+/// 3 clause/2 cursors. Chosen per history so that a large share of the histories stays inside the
+/// core region (no defect family, see Model::family).
+fn bound_key() -> BoxedStrategy<Key> {
+    any::<u16>().prop_map(|r| Some(pick(&[0u8, 0, 0, 1, 1, 2, 2, 3, 4, 5, 6, 7, 8], r))).boxed()
 }
 
-fn clause_key_strategy() -> BoxedStrategy<Key> {
-    if feat(1) {
+fn clause_key_strategy(mask: u8) -> BoxedStrategy<Key> {
+    if mask & 1 != 0 {
         key_strategy()
     } else {
-        any::<u16>().prop_map(|r| Some(pick(&[0u8, 0, 0, 1, 1, 2, 2, 3, 4, 5, 6, 7, 8], r))).boxed()
+        bound_key()
     }
 }
 
 fn key_strategy() -> BoxedStrategy<Key> {
-    // few distinct keys so that patterns hit; unbound keys and patterns are common
-    prop_oneof![
-        3 => Just(None),
-        8 => any::<u16>().prop_map(|r| Some(pick(&[0u8, 0, 0, 1, 1, 2, 2, 3, 4, 5, 6, 7, 8], r))),
-    ]
-    .boxed()
+    // few distinct keys so that patterns hit; unbound patterns are common
+    prop_oneof![3 => Just(None), 8 => bound_key()].boxed()
 }
 
-fn simple_step() -> BoxedStrategy<Step> {
+fn simple_step(mask: u8) -> BoxedStrategy<Step> {
+    let aa = mask & 2 != 0;
     prop_oneof![
-        5 => clause_key_strategy().prop_map(Step::Az),
-        2 => clause_key_strategy().prop_map(if feat(2) { Step::Aa } else { Step::Az }),
+        5 => clause_key_strategy(mask).prop_map(Step::Az),
+        2 => clause_key_strategy(mask).prop_map(move |k| if aa { Step::Aa(k) } else { Step::Az(k) }),
         3 => key_strategy().prop_map(Step::Rt),
         1 => key_strategy().prop_map(Step::Ra),
         2 => key_strategy().prop_map(Step::Pr),
@@ -86,23 +83,40 @@ fn simple_step() -> BoxedStrategy<Step> {
     .boxed()
 }
 
-fn steps_strategy() -> BoxedStrategy<Vec<Step>> {
-    let leaf = simple_step();
-    let step = leaf.prop_recursive(3, 40, 6, |inner| {
+fn steps_with(mask: u8) -> BoxedStrategy<Vec<Step>> {
+    let leaf = simple_step(mask);
+    let step = leaf.prop_recursive(3, 40, 6, move |inner| {
         prop_oneof![
-            3 => simple_step(),
+            3 => simple_step(mask),
             2 => (0u8..3, key_strategy(), proptest::collection::vec(proptest::collection::vec(inner.clone(), 0..=3), 0..=3), any::<bool>())
-                .prop_map(|(kind, pat, subs, cut)| {
-                    let kind = if kind == 2 && !feat(4) { 0 } else if kind == 1 && !feat(8) { 0 } else { kind };
+                .prop_map(move |(kind, pat, subs, cut)| {
+                    let kind = if kind == 2 && mask & 4 == 0 { 0 } else if kind == 1 && mask & 8 == 0 { 0 } else { kind };
                     Step::Cur { kind, pat, subs, cut }
                 }),
         ]
     });
     // a prefix of asserts makes cursors non-empty
-    (proptest::collection::vec(clause_key_strategy().prop_map(Step::Az), 0..=5), proptest::collection::vec(step, 1..=10))
+    (proptest::collection::vec(clause_key_strategy(mask).prop_map(Step::Az), 0..=5), proptest::collection::vec(step, 1..=10))
         .prop_map(|(mut pre, rest)| {
             pre.extend(rest);
             pre
+        })
+        .boxed()
+}
+
+fn steps_strategy() -> BoxedStrategy<Vec<Step>> {
+    // per-history feature mask: ~45% of the histories use neither unbound keys nor clause/2 cursors
+    (0u8..100)
+        .prop_flat_map(|r| {
+            let mask: u8 = match r {
+                0..=34 => 4,        // call + retract cursors only
+                35..=59 => 0,       // call cursors only
+                60..=79 => 2 | 4,   // + asserta
+                80..=87 => 8 | 4,   // + clause/2 cursors
+                88..=94 => 1 | 4,   // + unbound keys
+                _ => 15,            // everything
+            };
+            steps_with(mask)
         })
         .boxed()
 }
@@ -320,8 +334,26 @@ impl Model {
 
 impl Model {
     /// context class of a history: which kinds of updates happened under which kinds of open cursors
+    /// Failure family of a history. The four "defect families" are regions of the history space in
+    /// which the current tree is known to violate the property (see known/C09.json); everything
+    /// else is the core region, where any failure is a new violation.
+    fn family(&self) -> String {
+        let clause_cursor = self.kinds_mask & 2 != 0;
+        if self.used_var_key {
+            "family-unbound-key".into()
+        } else if clause_cursor {
+            "family-clause2-cursor".into()
+        } else if self.retract_of_pending {
+            "family-retract-of-pending-clause".into()
+        } else if self.used_asserta && (self.assert_under_cursor || self.retract_under_cursor) {
+            "family-asserta-with-open-cursor".into()
+        } else {
+            format!("core-{}", self.ctx())
+        }
+    }
+
     fn ctx(&self) -> String {
-        let base = if self.retract_of_pending { "retract-of-pending" } else if self.retract_under_cursor { "retract-under-cursor" } else if self.assert_under_cursor { "assert-under-cursor" } else { "no-open-cursor" };
+        let base =if self.retract_of_pending { "retract-of-pending" } else if self.retract_under_cursor { "retract-under-cursor" } else if self.assert_under_cursor { "assert-under-cursor" } else { "no-open-cursor" };
         let mut s = base.to_string();
         if self.kinds_mask != 0 {
             s.push('@');
@@ -393,10 +425,10 @@ pub fn check(env: &mut Env, steps: &Vec<Step>) -> Verdict {
     // a history of <= 60 steps needs a few thousand inferences; 3 million is > 100x that
     let o = env.s.ask_lim(&format!("c09_run({text}, Log)"), "Log", 3_000_000);
     if matches!(o, Outcome::Limit) {
-        let ctx = m.ctx();
-        return Verdict::fail(format!("nontermination:{ctx}"), format!("c09_run({text}, Log) exceeded 3000000 inferences (expected log {})", expected.text()));
+        return Verdict::fail(format!("{}:hang", m.family()), format!("c09_run({text}, Log) exceeded 3000000 inferences (expected log {})", expected.text()));
     }
-    let mut classes = vec![];
+    let fam = m.family();
+    let mut classes = vec![fam.as_str()];
     if m.assert_under_cursor {
         classes.push("assert-under-cursor");
     }
@@ -408,7 +440,7 @@ pub fn check(env: &mut Env, steps: &Vec<Step>) -> Verdict {
     }
     match &o {
         Outcome::Sols(v) if v.len() == 1 && v[0].eq_struct(&expected) => Verdict::pass(m.assert_under_cursor || m.retract_under_cursor, &classes),
-        Outcome::Panic(p) => Verdict::fail(format!("panic:{}:{}", p.split_whitespace().next().unwrap_or("?"), m.ctx()), format!("c09_run({text}) panicked: {p}")),
+        Outcome::Panic(p) => Verdict::fail(format!("{}:panic", m.family()), format!("c09_run({text}) panicked: {p}")),
         Outcome::Harness(h) => Verdict::Discard(format!("harness:{}", h.chars().take(40).collect::<String>())),
         other => {
             // classify: the first differing log entry
@@ -419,7 +451,7 @@ pub fn check(env: &mut Env, steps: &Vec<Step>) -> Verdict {
                 },
                 _ => vec![],
             };
-            let mut sig = "log-differs:other".to_string();
+            let mut sig = format!("{}:wrong-log", m.family());
             for (i, e) in m.log.iter().enumerate() {
                 let en = e.norm();
                 match got.get(i) {
@@ -434,9 +466,8 @@ pub fn check(env: &mut Env, steps: &Vec<Step>) -> Verdict {
                             Some(_) => "?".into(),
                             None => "missing".into(),
                         };
-                        let ctx = m.ctx();
                         let _ = (&ename, &gname);
-                        sig = format!("log-differs:{ctx}");
+                        sig = format!("{}:wrong-log", m.family());
                         break;
                     }
                 }
@@ -460,7 +491,7 @@ impl Prop for C09 {
     }
     fn run_shard(&self, cfg: &ShardCfg) -> ShardResult {
         let mut d = Driver::new(cfg, "C09");
-        let n = cfg.share(cfg.tier.pick(20_000, 600_000));
+        let n = cfg.share(cfg.tier.pick(4_000, 400_000));
         d.run("history", 0, n, 1500, steps_strategy(), &mk_env, &check);
         d.finish()
     }
@@ -469,12 +500,12 @@ impl Prop for C09 {
     }
     fn case_timeout_s(&self, _tier: Tier) -> u64 {
         // a history takes milliseconds
-        20
+        8
     }
     fn classify_stuck(&self, _kind: &str, case: &Value, base: &str) -> String {
         let Ok(steps) = serde_json::from_value::<Vec<Step>>(case.clone()) else { return base.to_string() };
         let mut m = Model { db: vec![], log: vec![], ids: Ids { next_clause: 0, next_cursor: 0 }, ambiguous: false, assert_under_cursor: false, retract_under_cursor: false, retract_of_pending: false, open_snapshots: vec![], open_kinds: vec![], kinds_mask: 0, used_asserta: false, used_var_key: false };
         m.run(&steps);
-        format!("{base}:{}", m.ctx())
+        format!("{}:{}", m.family(), if base == "hang" { "hang" } else { "crash" })
     }
 }
